@@ -4,6 +4,10 @@ import json, os, sys
 HERE = os.path.dirname(os.path.abspath(__file__))
 
 CHECKS = {
+ 'C03': dict(technique='runtime monitor: evaluator() outcomes vs two independent reference evaluations of the generating derivation (AST evaluator + hand-written recursive-descent parser over tokens); rendering differential; invalid-by-construction strings vs the documented error family',
+             text='Exploration by runtime monitoring: every operator sequence up to length 3 (4 in thorough) with every unary-minus placement, on real and complex bindings, plus thousands of random derivations (all literal forms, names, functions, arrays) each in 6 renderings, are evaluated by the real evaluator and judged against reference values; the run measures how many cases discriminate each wrong grammar hypothesis (level swap, associativity flips).',
+             note='Trusted: the two reference evaluators (cross-checked against each other on every derivation; disagreement = inconclusive); 1e-9 relative tolerance scaled by the largest intermediate; cases where the reference is undefined (overflow, division by zero, complex value exactly on a branch cut) only require a student-facing error.',
+             ref='DESIGN.md section 4, C03'),
  'C18': dict(technique='runtime monitor: reference cleaning function + re.fullmatch oracle applied to every StringGrader call over 16 flag combinations x generated strings/edits, accept_any minimum grids, validation-pattern grids',
              text='Exploration by runtime monitoring: each StringGrader outcome (grade, message, error class) over tens of thousands of generated (flags, expected, submission) triples is compared with an independent 20-line reference of the documented cleaning and with re.fullmatch; refusals are checked to take the form explain_minimums / explain_validation prescribe.',
              note='Trusted: the reference cleaning function (written from the statement); R11 exclusions (non-U+0020 whitespace at the ends; runs of >=3 CR/LF without clean_spaces/strip_all).',
